@@ -1363,8 +1363,8 @@ class timed_window(Stream):
             metadata, self.metadata_buffer = self.metadata_buffer, []
             m = [m for ml in metadata for m in ml]
             self.last = self._emit(L, m)
-            self._release_refs(m)
             yield self.last
+            self._release_refs(m)
             yield gen.sleep(self.interval)
 
 
@@ -1482,8 +1482,8 @@ class timed_window_unique(Stream):
             # TODO: figure out why metadata_result is handled differently here...
             m = [m for ml in metadata_result for m in ml]
             self.last = self._emit(result, m)
-            self._release_refs(m)
             yield self.last
+            self._release_refs(m)
             yield gen.sleep(self.interval)
 
 
